@@ -7,6 +7,7 @@ package main
 
 import (
 	"bytes"
+	"crypto/sha256"
 	"fmt"
 	"strings"
 
@@ -139,6 +140,16 @@ func (s *smSession) deliver(a *arrival) (ans string, fwd *types.Block, panicked 
 	return strings.Join(parts, ","), fwd, false
 }
 
+// contentToken: equal tokens = equal content (the harness's own encoding of the whole block, hashed).
+func contentToken(b *types.Block) string {
+	raw, err := p2putil.MarshalMessageBody(b)
+	if err != nil {
+		panic(err)
+	}
+	d := sha256.Sum256(raw)
+	return hx(d[:])
+}
+
 func signedBlock(rng *vh.Rng, bp *nPeer, no uint64, txBytes int) *types.Block {
 	b := &types.Block{Header: &types.BlockHeader{ChainID: []byte("c18"), PrevBlockHash: rng.Bytes(32), BlockNo: no, Timestamp: rng.Int63(),
 		BlocksRootHash: rng.Bytes(32), TxsRootHash: rng.Bytes(32), ReceiptsRootHash: rng.Bytes(32), Confirms: uint64(rng.Intn(20)),
@@ -197,7 +208,7 @@ func notices(run *vh.Run) {
 			senderOK := berr == nil && (bpid == peers[from].id || (peers[from].role == types.PeerRole_Agent && len(peers[from].certs) > 0 && peers[from].certs[0].BPID == bpid))
 			present := b != nil && len(b.Hash) > 0
 			return &arrival{kind: "bp", from: from, genuine: genuine, shape: shape, raw: raw, id: b.Hash, blk: b, reaches: present && len(b.Hash) == 32 && senderOK,
-				opTail: fmt.Sprintf("%s %d %d %d %d", hx(b.Hash), b2i(present), b2i(len(b.Hash) == 32), b2i(senderOK), b2i(b.Size() <= maxBlock))}
+				opTail: fmt.Sprintf("%s %d %d %d %d %s", hx(b.Hash), b2i(present), b2i(len(b.Hash) == 32), b2i(senderOK), b2i(b.Size() <= maxBlock), contentToken(b))}
 		}
 		mkNB := func(from int, id []byte) *arrival {
 			raw, _ := p2putil.MarshalMessageBody(&types.NewBlockNotice{BlockHash: id, BlockNo: uint64(rng.Intn(1000))})
@@ -349,8 +360,10 @@ func notices(run *vh.Run) {
 			}
 			fates[i] = fate{ans, fwd != nil}
 			if fwd != nil && !bytes.Equal(digestOf(fwd), fwd.GetHash()) {
-				// same cause as the listed class C18-id-not-recomputed, at another entry point: counted
-				run.Count("known-cause:C18-id-not-recomputed@syncmanager-" + a.kind)
+				// the listed class C18-id-not-recomputed at this entry point: exactly "the header does not hash to the carried id"
+				run.Count("known:C18-id-not-recomputed@syncmanager-" + a.kind)
+				run.FailKnown("the sync manager forwards a block whose header does not hash to its announced identifier (identifier never recomputed on receipt)",
+					"C18-id-not-recomputed", map[string]interface{}{"op": op, "session": sess, "index": i, "carried_hash": hx(fwd.GetHash()), "digest_of_header": hx(digestOf(fwd))})
 			}
 			if fwd != nil && fwd.Size() > maxBlock {
 				run.Fail("the sync manager forwarded a block larger than a block may be", map[string]interface{}{"op": op, "session": sess, "index": i})
@@ -388,12 +401,11 @@ func notices(run *vh.Run) {
 				continue
 			}
 			// the genuine arrival was acted on in the clean session and ignored in the real one
-			if entitled {
-				// candidate (reported to the lead, counted until it is decided): an altered BlockProduced notice from a sender
-				// that passes the sender check marks the announced identifier as seen
-				cls := "candidate:C18-seen-cache-poisoned-by-altered-notice"
+			if entitled && a.kind == "nb" {
+				// candidate (reported to the lead, counted until it is decided): after repair 27f3484f an altered BlockProduced
+				// copy from a sender that passes the sender check still hides later NewBlockNotices of that identifier
+				cls := "candidate:C18-altered-notice-hides-newblocknotice"
 				run.Count(cls)
-				run.Count(cls + ":" + strings.SplitN(shape, "-from-", 2)[0] + ":" + a.kind)
 				if candidates[cls]++; candidates[cls] == 1 {
 					run.Sample(fmt.Sprintf("%s | %s", cls, strings.Join(tr, " ; ")))
 				}
